@@ -380,7 +380,11 @@ func (w *world) logf(format string, a ...any) {
 func (w *world) fail(key, format string, a ...any) {
 	what := fmt.Sprintf(format, a...)
 	w.logf("VIOLATION %s: %s", key, what)
-	w.c.Fail(key+"/"+w.cfg.Transport, what+" ["+w.cfg.name()+"]", map[string]any{"trace": w.trace})
+	tr := w.cfg.Transport
+	if w.cfg.SplitReceive {
+		tr += "-split" // findings that need two Receive calls to interleave between their two critical sections
+	}
+	w.c.Fail(key+"/"+tr, what+" ["+w.cfg.name()+"]", map[string]any{"trace": w.trace})
 }
 
 var iface = distsys.ArchetypeInterface{}
